@@ -140,7 +140,10 @@ func (e *muxEngine) checkReturn(p *pending, errReply bool) error {
 		return e.fail("call %s (marker %#x, tag %d) did not return within %v after its reply was sent", p.kind, p.marker, p.tag, bound)
 	}
 	if errReply {
-		want := fmt.Sprintf("E%08x", p.marker)
+		want := p.errText
+		if want == "" {
+			want = fmt.Sprintf("E%08x", p.marker)
+		}
 		re, ok := p.res.err.(p9p.MessageRerror)
 		if !ok || re.Ename != want {
 			return e.fail("call %s (marker %#x) was answered with Rerror %q but returned err=%v", p.kind, p.marker, want, p.res.err)
@@ -256,7 +259,12 @@ func RunMux(c MuxCase) harn.Result {
 			e.held = append(e.held[:i], e.held[i+1:]...)
 			var m *refwire.Msg
 			if st.Err {
-				m = &refwire.Msg{Kind: refwire.Rerror, Tag: p.tag, Ename: harn.B(fmt.Sprintf("E%08x", p.marker))}
+				p.errText = fmt.Sprintf("E%08x", p.marker)
+				if st.Which%3 == 0 {
+					// error texts the library itself uses: to the client they are texts like any other
+					p.errText = []string{"duplicate tag", "unknown tag", "closed", "duplicate fid", "unknown fid"}[(st.Which/3)%5]
+				}
+				m = &refwire.Msg{Kind: refwire.Rerror, Tag: p.tag, Ename: harn.B(p.errText)}
 			} else {
 				m = goodReply(p.kind, p.tag, p.marker)
 			}
